@@ -29,6 +29,8 @@ func VerifC20Pull() {
 	}
 	fails := verifrt.Bool("pull.fails")
 	again := verifrt.Bool("caller0.asksAgain")
+	// caller 0's context may be cancelled while a pull is running: every waiter still gets its response
+	cancels := verifrt.Bound("withCancel", 0) == 1 && verifrt.Bool("caller0.contextCancelledDuringPull")
 	payload, extra := 1, 0
 	if !verifrt.Symbolic() {
 		payload, extra = 4<<20, 6
@@ -57,6 +59,7 @@ func VerifC20Pull() {
 		pulls := map[string]int{}
 		overlap := false
 		rm := &RequestManager{inFlight: map[string][]chan<- response{}}
+		ctx0, cancel0 := context.WithCancel(context.Background())
 		rm.pullImage = func(_ context.Context, _ client.Client, _ types.NamespacedName, ref string, _ ...crane.Option) (*packagetypes.RawPackage, error) {
 			verifrt.Lock()
 			inFlight[ref]++
@@ -65,6 +68,9 @@ func VerifC20Pull() {
 			}
 			verifrt.Unlock()
 			verifrt.Pause() // the pull takes a while: other goroutines may run
+			if cancels {
+				cancel0()
+			}
 			verifrt.Lock()
 			inFlight[ref]--
 			pulls[ref]++
@@ -85,7 +91,11 @@ func VerifC20Pull() {
 						verifrt.Pause()
 						verifrt.Pause()
 					}
-					pkg, err := rm.Pull(context.Background(), img(k))
+					ctx := context.Background()
+					if k == 0 {
+						ctx = ctx0
+					}
+					pkg, err := rm.Pull(ctx, img(k))
 					verifrt.Lock()
 					results[k], errs[k] = pkg, err
 					returned[k]++
@@ -101,6 +111,7 @@ func VerifC20Pull() {
 				select {
 				case <-done:
 				case <-timeout:
+					verifrt.Assert(false, "no-deadlock")
 					verifrt.Assert(false, "C20/every-caller-gets-exactly-one-response")
 					verifrt.Assert(false, "C20/no-stale-in-flight-entry")
 					return
